@@ -182,11 +182,30 @@ def v1KeyedDistinct (m : V1.Metas) (nodes : List Json) : Bool :=
       ids.length == (hdedup ids).length
     | _ => true)
 
+/-- class of KF-C01-keytwin (v1): some array holds two object members such that the set-key pairs one
+    of them HAS are a proper part of the other's — v1 forgets the set keys when patching (`path.next`
+    ignores `setkeys=…`), so the path object of the former, which holds just those pairs, also matches
+    the latter -/
+def v1KeyTwin (m : V1.Metas) (nodes : List Json) : Bool :=
+  match V1.keysOf m with
+  | none => false
+  | some ks =>
+    let o : Opts := [.set]
+    let proj (kvs : List (String × Json)) : List (String × Json) := kvs.filter (fun kv => ks.contains kv.1)
+    nodes.any (fun n => match n with
+      | .arr _ xs =>
+        let objs := xs.filterMap (fun n => match n with | .obj kvs => some (proj kvs) | _ => none)
+        objs.any (fun x => objs.any (fun y =>
+          x.length < y.length && !x.isEmpty &&
+          x.all (fun kv => match alookup kv.1 y with | some v => equivB o kv.2 v | none => false)))
+      | _ => false)
+
 /-- C17 (in-memory half) on the implementation's outputs: `a.Patch(a.Diff(b, meta))` succeeded, its
     result Equals b (implementation's verdict, model `equals`, hash-free spec `equivB`), and the diff
     is empty exactly when the implementation says `a.Equals(b, meta)`. -/
 def c17Class (m : V1.Metas) (a b : Json) (why : String) : String :=
   if v1SetMode m && !(v1AliasFree m (subterms a ++ subterms b)) then "kf KF-C04-alias " ++ why
+  else if V1.hasSet m && v1KeyTwin m (subterms a ++ subterms b) then "kf KF-C01-keytwin " ++ why
   else if V1.hasSet m && (V1.keysOf m).isSome && !(v1KeyedDistinct m (subterms a ++ subterms b)) then
     "ok skipped-setkeys-precondition (two members of one array share an identity): " ++ why
   else if (hasNegZero a || hasNegZero b) then "kf KF-C05-negzero " ++ why
